@@ -180,7 +180,9 @@ func c12ModuleRun(env world.Env, amount int64, denomMode int, D time.Duration, n
 
 // c12AppRun: gauges created by real BuyStorage transactions (same block, equal or different parameters), reward
 // blocks through the whole application (both seams).
-func c12AppRun(env world.Env, sameParams bool, buyers int, seq []int) mc.CaseResult {
+// restart: after the purchases the storage module is restarted from its own exported genesis (export, JSON, validate,
+// empty store, import); every gauge must go on releasing exactly as if nothing had happened.
+func c12AppRun(env world.Env, sameParams bool, buyers int, seq []int, restart bool) mc.CaseResult {
 	w := env.W()
 	k := w.App.StorageKeeper
 	cr := mc.CaseResult{Class: "app"}
@@ -233,6 +235,12 @@ func c12AppRun(env world.Env, sameParams bool, buyers int, seq []int) mc.CaseRes
 	}
 	if !recorded.IsEqual(deposited) {
 		cr.Viols = append(cr.Viols, viol("released-equals-elapsed-fraction-of-deposit", "gauge-records-do-not-cover-deposits", "deposited %s into gauge accounts, gauge records total %s (%d gauges for %d purchases)", deposited, recorded, len(k.GetAllPaymentGauges(env.Ctx())), buyers))
+	}
+	if restart {
+		if err := restartModule(env, "storage"); err != nil {
+			cr.Viols = append(cr.Viols, viol("released-equals-elapsed-fraction-of-deposit", "restart-failed", "export -> import of the storage module failed: %v", err))
+			return cr
+		}
 	}
 	pts := c12Points(start, D)
 	for _, pi := range seq {
@@ -317,8 +325,13 @@ func c12EnumApp(thorough bool) mc.Enum {
 		}{{false, 1}, {false, 2}, {true, 2}, {true, 3}} {
 			seq, v := seq, v
 			e.Cases = append(e.Cases, mc.Case{Desc: fmt.Sprintf("app|buyers=%d|sameParams=%v|times=%s", v.buyers, v.same, seqDesc(seq)), Run: func(env world.Env) mc.CaseResult {
-				return c12AppRun(env, v.same, v.buyers, seq)
+				return c12AppRun(env, v.same, v.buyers, seq, false)
 			}})
+			if v.buyers >= 2 {
+				e.Cases = append(e.Cases, mc.Case{Desc: fmt.Sprintf("app|buyers=%d|sameParams=%v|times=%s|restart", v.buyers, v.same, seqDesc(seq)), Run: func(env world.Env) mc.CaseResult {
+					return c12AppRun(env, v.same, v.buyers, seq, true)
+				}})
+			}
 		}
 	}
 	return e
@@ -328,7 +341,7 @@ func init() {
 	CaseReplayers["C12/gauges-module"] = func(r *mc.Run, c string) { r.ReplayCase(c12EnumModule(true), c) }
 	CaseReplayers["C12/gauges-app"] = func(r *mc.Run, c string) { r.ReplayCase(c12EnumApp(true), c) }
 	Props["C12"] = Prop{Level: "exploration", Run: func(r *mc.Run, tier string) {
-		r.Rules = append(r.Rules, "gauge amounts {1,2,3,7,10,999,1000003,1e15} x one/two denominations x durations {1d,30d,365d} x 1 or 3 concurrent gauges x every weakly increasing sequence of <=3 (thorough 4) reward-block times from {start,start+1us,D/7,D/3,D/2,D-1us,D,D+1us,2D} through the storage BeginBlocker; plus gauges created by real BuyStorage transactions (one buyer, two buyers, two buyers with identical parameters in the same block) run through the whole application at both seams. Non-trivial = a reward block released something")
+		r.Rules = append(r.Rules, "gauge amounts {1,2,3,7,10,999,1000003,1e15} x one/two denominations x durations {1d,30d,365d} x 1 or 3 concurrent gauges x every weakly increasing sequence of <=3 (thorough 4) reward-block times from {start,start+1us,D/7,D/3,D/2,D-1us,D,D+1us,2D} through the storage BeginBlocker; plus gauges created by real BuyStorage transactions (one buyer, two buyers, two buyers with identical parameters in the same block) run through the whole application at both seams, with and without a restart of the storage module from its own exported genesis after the purchases. Non-trivial = a reward block released something")
 		r.Assumptions = append(r.Assumptions, "whether the unreleased remainder is paid after the end is unspecified (only 'nothing is released outside the interval' is enforced)", "tolerance one base unit per denomination")
 		r.AddEnum(c12EnumModule(tier == "thorough"), workers(), time.Time{})
 		r.AddEnum(c12EnumApp(tier == "thorough"), workers(), time.Time{})
